@@ -24,6 +24,10 @@ const UNKNOWN0: u32 = 800_000;
 /// the "id unknown to H" of a monotone family
 const FAMILY_UNKNOWN0: u32 = 700_000;
 const TOL: f64 = 1e-9;
+/// cases per shard file: coqc start-up (several seconds on the shared machine) dominates the evaluation
+/// (about 1 ms per small case), so shards are as large as CONVENTIONS.md allows
+const PER_SHARD: usize = 100;
+const PER_SHARD_MID: usize = 10;
 const MAX_RUN: Duration = Duration::from_millis(900);
 const TAG_ANCHOR: &str = "c10-anchor-unmentioned";
 /// known-finding class: `AddPre i` after a compute that published a score for i (get_trust then answers 0.9)
@@ -863,14 +867,31 @@ fn rounds_class(r: usize) -> &'static str {
     match r { 0 => "0", 1 => "1", 2 => "2", 3 => "3", 4 => "4", 5..=6 => "5-6", 7 => "7", 8..=15 => "8-15", 16..=30 => "16-30", 31..=49 => "31-49", _ => "50" }
 }
 
-struct Out { w: CaseWriter, sum: Summary, next_id: u64, seen: HashSet<String>, timeout_cases: u64 }
+/// Three writers (all match the runner's `cases_*.v`): small cases 100 per shard, node sets of 61-200 ids ten per
+/// shard, larger ones alone (their evaluation takes seconds, so they run in parallel).
+struct Out { w: CaseWriter, w_mid: CaseWriter, w_big: CaseWriter, sum: Summary, next_id: u64, seen: HashSet<String>, timeout_cases: u64 }
 
 impl Out {
     fn stop(&self) -> bool { self.timeout_cases >= MAX_TIMEOUT_CASES }
+    fn new(out: &std::path::Path, ty: &str, check: &str, prop: &str) -> Out {
+        Out { w: CaseWriter::new(out, "cases", HEADER, ty, check, prop, PER_SHARD),
+              w_mid: CaseWriter::new(out, "cases_mid", HEADER, ty, check, prop, PER_SHARD_MID),
+              w_big: CaseWriter::new(out, "cases_big", HEADER, ty, check, prop, 1),
+              sum: Summary::default(), next_id: 0, seen: HashSet::new(), timeout_cases: 0 }
+    }
+    fn finish(&mut self, dir: &std::path::Path) {
+        if self.stop() { self.sum.notes.push(format!("generation stopped after {} cases whose compute returned through the timeout path", self.timeout_cases)); }
+        self.w.flush(); self.w_mid.flush(); self.w_big.flush();
+        self.sum.write(dir);
+    }
     fn emit(&mut self, term: String, desc: Value, n: usize, nontriv: bool, key: String) -> u64 {
         let id = self.next_id;
         self.next_id += 1;
-        if n > 60 { self.w.flush(); self.w.push(id, term); self.w.flush(); self.sum.count("shard:own(big)"); } else { self.w.push(id, term); }
+        match n {
+            0..=60 => self.w.push(id, term),
+            61..=200 => { self.w_mid.push(id, term); self.sum.count("shard-class:mid(61-200)"); }
+            _ => { self.w_big.push(id, term); self.sum.count("shard-class:own(>200)"); }
+        }
         self.sum.evaluations += 1;
         if nontriv && self.seen.insert(key) { self.sum.distinct_nontrivial += 1; }
         self.sum.case(id, desc);
@@ -1027,7 +1048,7 @@ fn do_base(rt: &tokio::runtime::Runtime, out: &mut Out, rng: &mut Rng, h: Hist, 
 
 fn mode_c10(args: &Args, rt: &tokio::runtime::Runtime) {
     let mut rng = Rng::new(args.seed);
-    let mut out = Out { w: CaseWriter::new(&args.out, "cases", HEADER, "tcase", "check_case", "prop_case", 40), sum: Summary::default(), next_id: 0, seen: HashSet::new(), timeout_cases: 0 };
+    let mut out = Out::new(&args.out, "tcase", "check_case", "prop_case");
     out.sum.rule = "C10: histories (5-80 operations, id pools 2-40, plus node sets of exactly 99/100/101/102/120/499/500/501/502/520) of reports \
 (both API routes), statistics updates with boundary values (uptime 86399/86400/86401, contributions 0/1/2/1000/2^40), anchor additions/removals \
 (some anchors never mentioned in a report), node removals, computes and queries; each ends with a compute and a query of every returned id and \
@@ -1057,9 +1078,7 @@ distinct = different (anchors, operations) text".into();
         out.sum.count(&format!("big:{}", n));
         do_base(rt, &mut out, &mut r2, h, fams);
     }
-    if out.stop() { out.sum.notes.push(format!("generation stopped after {} cases whose compute returned through the timeout path", out.timeout_cases)); }
-    out.w.flush();
-    out.sum.write(&args.out);
+    out.finish(&args.out);
 }
 
 // ------------------------------------------------------------------------------------------
@@ -1119,7 +1138,7 @@ fn gen_c11(rng: &mut Rng, n: u32, a: u32, s: u32) -> C11 {
     for &x in &syb { if rng.chance(out_pct, 100) { let t = *rng.pick(&good); let o = outcomes(rng, 70); reports.push((x, t, o)); } }
     // equal statistics: nobody, or the same sequence for everybody
     let seq: Vec<Upd> = if rng.chance(1, 2) { vec![] } else {
-        match rng.below(8) {
+        match rng.below(14) {
             0 => vec![Upd::Failed],                 // factor 0 for everybody
             1 => vec![Upd::Correct],
             _ => (0..rng.range(1, 3)).map(|_| pick_upd(rng)).collect(),
@@ -1161,7 +1180,7 @@ fn gen_c11(rng: &mut Rng, n: u32, a: u32, s: u32) -> C11 {
 
 fn mode_c11(args: &Args, rt: &tokio::runtime::Runtime) {
     let mut rng = Rng::new(args.seed);
-    let mut out = Out { w: CaseWriter::new(&args.out, "cases", HEADER, "c11case", "check_c11", "prop_c11", 40), sum: Summary::default(), next_id: 0, seen: HashSet::new(), timeout_cases: 0 };
+    let mut out = Out::new(&args.out, "c11case", "check_c11", "prop_c11");
     out.sum.rule = "C11: a anchors (1-5, sometimes 50), h honest nodes (a share of them silent), s Sybils (1-30, sometimes 100-300; thorough up to 1000) \
 forming a closed set (clique/star/chain/ring/self-loops/random, optionally rating honest nodes), equal statistics (none, or one identical update \
 sequence for every id), n = a+h+s hitting 12, 99-102, 499-502 and random sizes; operations shuffled, no compute inside, ONE final compute. \
@@ -1176,7 +1195,7 @@ Case 0 is the ledger scenario. Non-trivial = at least one positive edge or one s
         let s = if n >= 200 && rng.chance(1, 2) { rng.range(100, 300) as u32 } else { rng.range(1, 30) as u32 };
         s.min(room).max(1)
     };
-    let (nsmall, nmid, nrep_big) = if thorough { (1500, 300, 10) } else { (150, 24, 1) };
+    let (nsmall, nmid, nrep_big) = if thorough { (3000, 400, 10) } else { (300, 40, 1) };
     for _ in 0..nsmall {
         let n = if rng.chance(1, 5) { 12 } else { rng.range(3, 60) as u32 };
         let a = pick_a(&mut rng, n); let s = pick_s(&mut rng, n, a);
@@ -1250,9 +1269,7 @@ Case 0 is the ledger scenario. Non-trivial = at least one positive edge or one s
         let key = format!("{}|{:?}", hist_key(&c.pre, &c.ops), c.sybils);
         out.emit(term, desc, n as usize, nt, key);
     }
-    if out.stop() { out.sum.notes.push(format!("generation stopped after {} cases whose compute returned through the timeout path", out.timeout_cases)); }
-    out.w.flush();
-    out.sum.write(&args.out);
+    out.finish(&args.out);
 }
 
 fn main() {
